@@ -268,3 +268,95 @@ Proof.
   - discriminate.
   - discriminate.
 Qed.
+
+(* ------------------------------------------------------------------ the resumed automaton keeps the windows *)
+Lemma WA_handle sh s e s' : WA sh s -> handle sh s e = Some s' -> WA sh s'.
+Proof. intros [A B] H. split; [eapply W_handle; eauto|eapply A_handle; eauto]. Qed.
+
+Lemma WA_same sh s s' : s_g s' = s_g s -> s_ph s' = s_ph s -> s_thr s' = s_thr s -> WA sh s -> WA sh s'.
+Proof.
+  intros E1 E2 E3 [Hw Ha]. split.
+  - unfold p_windows in *. rewrite E1, E2, E3. exact Hw.
+  - intros g Hn. rewrite E1. now apply Ha.
+Qed.
+
+Lemma WA_idle sh s : (forall g, g_is_idle (tget (s_g s) g) = true) -> thr_live (s_thr s) = false -> WA sh s.
+Proof.
+  intros Hi Hl. split; [|intros g _; apply Hi]. apply W_alt. split; [intro g; left; apply Hi|rewrite Hl; discriminate].
+Qed.
+
+Definition WAR (sh : shape) (r : rst) : Prop := r_ph r = RIdle \/ WA sh (r_s r).
+
+Lemma plan_gtab_idle sh m g : g_is_idle (tget (plan_gtab sh m) g) = true.
+Proof.
+  unfold plan_gtab. destruct g; cbn [tget t_bypass t_pre t_cont t_post t_deferred]; try reflexivity;
+    destruct (is_terminal _); reflexivity.
+Qed.
+
+Lemma WAR_start_recover sh r todo : WAR sh (start_recover sh r todo).
+Proof.
+  right. unfold start_recover, take_entry. destruct todo as [|[b qs] rest]; cbn [r_s]; apply WA_idle; cbn [s_g s_thr]; try reflexivity.
+  - apply plan_gtab_idle.
+  - intros []; reflexivity.
+Qed.
+
+Lemma WAR_reps sh r r1 : WAR sh r -> reps sh r = Some r1 -> WAR sh r1.
+Proof.
+  intros Hg H. unfold reps in H. destruct (r_ph r) as [| [|[b qs] todo] |] eqn:Ep; try discriminate.
+  - destruct (forallb s_done (b_seqs (s_b (r_s r)))); [|discriminate]. injection H as <-. apply WAR_start_recover.
+  - destruct Hg as [Hg|Hg]; [congruence|].
+    apply option_map_some in H as (s2 & H & ->). unfold rp_eps in H.
+    destruct (p_eps sh (r_s r)) as [s'|] eqn:Ee; [|discriminate]. injection H as <-.
+    pose proof (WA_p_eps _ _ _ Hg Ee) as G'. right. cbn [r_s with_s].
+    destruct (entered (r_s r) s'); [|exact G'].
+    destruct (r_enter_spec sh (mget r) s' (s_cb s')) as (cb' & -> & _). eapply WA_same; [| | |exact G']; reflexivity.
+Qed.
+
+Lemma WAR_rhandle d sh r e r' : WAR sh r -> rhandle d sh r e = Some r' -> WAR sh r'.
+Proof.
+  intros [Hg|Hg] H; [left; rewrite (rhandle_ph _ _ _ _ _ H); exact Hg|]. unfold rhandle in H.
+  assert (Hs : forall x, option_map (with_s r) x = Some r' -> (forall s', x = Some s' -> WA sh s') -> WAR sh r').
+  { intros x Hx Hy. apply option_map_some in Hx as (s' & E & ->). right. cbn. auto. }
+  assert (Hrel : forall fin, r_release d sh r fin = Some r' -> WAR sh r').
+  { intros fin Hr. unfold r_release in Hr. destruct (r_ph r) eqn:Ep; try discriminate.
+    - destruct (negb (released (r_s r)) && _); [|discriminate]. injection Hr as <-. left. exact Ep.
+    - destruct (all_flushed sh r && _); [|discriminate]. eapply Hs; [exact Hr|]. intros s' E. eapply (WA_handle sh _ (EvRelease fin)); eauto. }
+  assert (Hwr : forall o stt n ok rs, r_write sh r o stt n ok rs = Some r' -> WAR sh r').
+  { intros o stt n ok rs Hw.
+    assert (Hrl : released (r_s r) = false).
+    { unfold r_write in Hw. destruct (released (r_s r)); [discriminate|reflexivity]. }
+    destruct (r_write_cases _ _ _ _ _ _ _ _ Hw) as [_ [(s' & Hh & ->)|[(b & q & b1 & qs & rest & -> & -> & _ & _ & Hu & ->)|[-> ->]]]].
+    - right. cbn. eapply (WA_handle sh _ (EvWrite o stt n ok rs)); [exact Hg|]. cbn [handle]. now rewrite Hrl.
+    - right. exact Hg.
+    - right. exact Hg. }
+  destruct (r_ph r); destruct e; try discriminate; eauto.
+  - eapply Hs; [exact H|]. intros s' E. eapply (WA_handle sh _ (EvRead snap)); eauto.
+  - eapply Hs; [exact H|]. intros s' E. eapply WA_handle; eauto.
+  - eapply Hs; [exact H|]. intros s' E. eapply WA_handle; eauto.
+  - eapply Hs; [exact H|]. intros s' E. eapply WA_handle; eauto.
+  - eapply Hs; [exact H|]. intros s' E. eapply WA_handle; eauto.
+  - eapply Hs; [exact H|]. intros s' E. eapply WA_handle; eauto.
+  - eapply Hs; [exact H|]. intros s' E. eapply WA_handle; eauto.
+Qed.
+
+Lemma WAR_flush sh r e r' : WAR sh r -> flush sh r e = Some r' -> WAR sh r'.
+Proof.
+  intros [Hg|Hg] H; [left; rewrite (flush_ph _ _ _ _ H); exact Hg|]. unfold flush in H. destruct (r_ph r); [discriminate| |];
+    (destruct e; try discriminate; destruct o; try discriminate;
+     match type of H with (if ?c then _ else _) = _ => destruct c; [|discriminate] end; injection H as <-; right; exact Hg).
+Qed.
+
+Lemma WAR_rinit sh im rs r0 : rinit sh im rs = Some r0 -> WAR sh r0.
+Proof.
+  unfold rinit. destruct (negb (status_eqb (ist im OPlan) Running)).
+  - intro H. injection H as <-. left. reflexivity.
+  - destruct (negb (resumable_ok (pln_of sh im))); [discriminate|]. intro H. injection H as <-. apply WAR_start_recover.
+Qed.
+
+Lemma WAR_run d sh tr r r' : WAR sh r -> rrun d sh r tr = Some r' -> WAR sh r'.
+Proof.
+  apply rrun_inv. apply rstep_inv.
+  - apply WAR_reps.
+  - intros r0 e r1. apply WAR_rhandle.
+  - intros r0 e r1. apply WAR_flush.
+Qed.
